@@ -105,7 +105,22 @@ func testCert(key, issuer, serial string) *x509.Certificate {
 		KeyUsage: x509.KeyUsageDigitalSignature, BasicConstraintsValid: true,
 		SignatureAlgorithm: x509.SHA256WithRSA,
 	}
-	der, err := x509.CreateCertificate(rand.Reader, tmpl, tmpl, &k.PublicKey, k)
+	parent, signKey := tmpl, k
+	if issuer == "ca" {
+		// issued by a separate CA: subject and issuer differ
+		tmpl.Subject = pkix.Name{CommonName: "Verif Leaf " + key, Organization: []string{"Leaf Org"}}
+		ca := &x509.Certificate{SerialNumber: big.NewInt(7), Subject: pkix.Name{CommonName: "Verif CA"}, Issuer: pkix.Name{CommonName: "Verif CA"},
+			NotBefore: tmpl.NotBefore, NotAfter: tmpl.NotAfter, IsCA: true, BasicConstraintsValid: true, KeyUsage: x509.KeyUsageCertSign}
+		cak := testKey("k3")
+		caDer, err := x509.CreateCertificate(rand.Reader, ca, ca, &cak.PublicKey, cak)
+		if err != nil {
+			fmt.Fprintln(os.Stderr, "worker: cannot create CA:", err)
+			os.Exit(3)
+		}
+		parent, _ = x509.ParseCertificate(caDer)
+		signKey = cak
+	}
+	der, err := x509.CreateCertificate(rand.Reader, tmpl, parent, &k.PublicKey, signKey)
 	if err != nil {
 		fmt.Fprintln(os.Stderr, "worker: cannot create certificate:", err)
 		os.Exit(3)
